@@ -24,6 +24,7 @@ import grec  # noqa: E402
 
 DEPS = ["Base/Chars.v", "Model/Serde.v", "Gen/SerdeDesc.v"]
 CLASS_META = "metadata_non_string_key_or_yaml_tag"
+CLASS_FLOAT = "f64_not_reparsed_exactly_by_serde_json"
 ALL_EXT = 65535          # from_bits_truncate keeps the defined bits
 WITNESS = "---\n3: x\nt: !tag y\n---\nstep\n"
 
@@ -340,19 +341,20 @@ def run(rep, tier, seed):
     audit = common.audit_property_file("C15")
     runner = common.build_runner("serde", DEPS)
     exe = os.path.join(bindir, "serde")
-    finding = next((f for f in rep.findings if f.get("class") == CLASS_META), None)
+    findings = {c: next((f for f in rep.findings if f.get("class") == c), None) for c in (CLASS_META, CLASS_FLOAT)}
 
     n_rec = 700 if tier == "quick" else 14000
     recipes = [(unhx(c.split(" ")[0]), int(c.split(" ")[1]), "corpus") for c in common.load_corpus("C15")]
     recipes += [(WITNESS, ALL_EXT, "witness")] + gen_recipes(rng, n_rec)
     cases = []
     for text, bits, kind in recipes:
-        for v in (["u", "d", "s2+i"] if kind in ("corpus", "witness") else variants(rng)):
+        for v in (["u", "d", "d+i", "s1.5+i"] if kind in ("corpus", "witness") else variants(rng)):
             cases.append((text, bits, v, kind))
     lines = ["R %s %d %s" % (hx(t), b, v) for t, b, v, _ in cases]
     impl = common.run_lines(exe, lines, tag="impl")
 
-    monitor_hits, disagreements, known_hits = [], [], []
+    monitor_hits, disagreements = [], []
+    known_hits = {CLASS_META: [], CLASS_FLOAT: []}
     st = Counter()
     kinds = Counter()
     model_cases, model_idx = [], []
@@ -388,13 +390,24 @@ def run(rep, tier, seed):
         distinct.add(f["D"])
         in_class = bool(K & {"nsk", "tag"})
         # ---- monitor
-        if f["M"] != "ok":
-            if in_class and f["M"] in ("neq_partialeq", "neq_dump", "de_err", "ser_err") and f["M2"] == "ok":
-                known_hits.append((text, f["M"], rp))
-                st["class_hits:" + f["M"]] += 1
-            else:
-                monitor_hits.append((text, "round trip fails: %s (variant %s)" % (f["M"], v), rp))
-        elif in_class and f["M2"] != "ok":
+        is_float = "fp" in K
+        if f["M"] == "ok" and (not in_class or f["M2"] == "ok"):
+            pass
+        elif is_float and f["M"] == "neq_float" and f["M2"] in ("-", "neq_float"):
+            # the only differences are f64 values that serde_json itself does not parse back from its own text
+            known_hits[CLASS_FLOAT].append((text, f["M"], rp))
+            st["class_hits:float"] += 1
+        elif in_class and f["M"] in ("neq_partialeq", "neq_dump", "de_err", "ser_err") and \
+                (f["M2"] == "ok" or (is_float and f["M2"] == "neq_float")):
+            # without its metadata the recipe round-trips (up to the float class)
+            known_hits[CLASS_META].append((text, f["M"], rp))
+            st["class_hits:metadata:" + f["M"]] += 1
+            if f["M2"] == "neq_float":
+                known_hits[CLASS_FLOAT].append((text, f["M2"], rp))
+                st["class_hits:float"] += 1
+        elif f["M"] != "ok":
+            monitor_hits.append((text, "round trip fails: %s (variant %s)" % (f["M"], v), rp))
+        else:
             monitor_hits.append((text, "round trip fails without the metadata: %s (variant %s)" % (f["M2"], v), rp))
         # ---- correspondence
         if m["W"].startswith("unres"):
@@ -407,8 +420,10 @@ def run(rep, tier, seed):
             disagreements.append((text, dict(rp, why="ser(descriptor, dump) differs from serde_json's output",
                                              model_json=m["S"][:2000], impl_json=exp_s[:2000])))
             continue
+        # neq_float: the model treats numbers as opaque atoms (oracle hypothesis: print and parse are
+        # inverse), so it predicts a clean round trip; the hypothesis failed on this input - counted above
         impl_sum = {"ok": ("acc", "1", "1"), "de_err": ("rej", "-", "-"), "reser_diff": ("acc", "1", "0"),
-                    "ser_err": ("-", "-", "-")}.get(f["M"])
+                    "ser_err": ("-", "-", "-"), "neq_float": ("acc", "1", "1")}.get(f["M"])
         got = (m["D"], m["N"], m["R"])
         if impl_sum is None:        # neq_*: the model must also see an unequal value
             ok = got[0] == "acc" and got[1] == "0"
@@ -418,7 +433,7 @@ def run(rep, tier, seed):
             disagreements.append((text, dict(rp, why="de/round trip: model %s, implementation %s" % (got, f["M"]))))
 
     # ---- mutated JSON: accept / reject and re-serialisation
-    pool = [i for i in model_idx if parsed[i]["tree"] is not None and parsed[i]["M"] == "ok"]
+    pool = [i for i in model_idx if parsed[i]["tree"] is not None and parsed[i]["M"] == "ok" and "fp" not in parsed[i]["K"]]
     rng.shuffle(pool)
     n_mut = 400 if tier == "quick" else 6000
     mut = []
@@ -444,17 +459,20 @@ def run(rep, tier, seed):
                                              "mutation": what, "mutated_json": jtext(tr)[:3000], "impl": a[:200],
                                              "model": b[:200], "why": "from_str and de disagree on a mutated document"}))
 
-    # ---- known finding
-    if known_hits:
-        if finding is not None:
-            text, mcode, rp = min(known_hits, key=lambda t: len(t[0]))
-            rep.known(finding.get("id", CLASS_META),
-                      finding.get("what", "metadata with a non-string key or a YAML tag does not survive JSON")
-                      + " [%d generated recipes of that class, e.g. %r: %s]" % (len(known_hits), text[:60], mcode))
+    # ---- known findings: a class is quiet only while its entry is listed in known_findings.json
+    for cls, default in ((CLASS_META, "metadata with a non-string key or a YAML tag does not survive JSON"),
+                         (CLASS_FLOAT, "serde_json (default features) does not parse some f64 back from its own text")):
+        hits = known_hits[cls]
+        if not hits:
+            continue
+        if findings[cls] is not None:
+            text, mcode, rp = min(hits, key=lambda t: len(t[0]))
+            rep.known(findings[cls].get("id", cls), findings[cls].get("what", default)
+                      + " [%d generated cases of that class, e.g. %r variant %s: %s]" % (len(hits), text[:60], rp["variant"], mcode))
         else:
-            monitor_hits += [(t, "round trip fails (%s) on metadata with a non-string key or a YAML tag; "
-                                 "no entry of class %s in known_findings.json" % (mc, CLASS_META), rp)
-                             for t, mc, rp in known_hits]
+            monitor_hits += [(t, "round trip fails (%s): %s; no entry of class %s in known_findings.json" % (mc, default, cls), rp)
+                             for t, mc, rp in hits]
+    finding = findings[CLASS_META]
     witness_rows = [parsed[i] for i in model_idx if cases[i][3] == "witness" and parsed[i] is not None]
     if finding is not None and witness_rows and all(w["M"] == "ok" for w in witness_rows):
         disagreements.append((WITNESS, {"input": WITNESS, "why": "known_findings.json lists %s but the witness now round-trips: "
@@ -477,7 +495,8 @@ def run(rep, tier, seed):
                 "scale_to_servings, then convert to metric/imperial); %d mutated JSON documents; distinct_nontrivial = "
                 "number of distinct recipe dumps" % (len(recipes), len(mut)),
         "recipes": len(recipes), "recipe_kinds": dict(kinds), "cases_round_tripped": evaluated,
-        "mutations": len(mut), "known_class_hits": len(known_hits),
+        "mutations": len(mut), "known_class_hits": {c: len(h) for c, h in known_hits.items()},
+        "oracle_hypothesis_failures": len(known_hits[CLASS_FLOAT]),
         "monitor_violations": len(monitor_hits), "correspondence_disagreements": len(disagreements),
         "distribution": dict(sorted(st.items())),
         "descriptor_types": gen_info["types"], "descriptor_notes": gen_info["notes"],
@@ -487,7 +506,8 @@ def run(rep, tier, seed):
     })
     rep.assumptions = [
         "numbers are opaque atoms: serde_json's printing and parsing of a finite f64/u64/i64 are inverse on what it prints "
-        "(checked on every generated number by the monitor: bit patterns before and after)",
+        "(oracle hypothesis, checked on every number of every case by the harness: class flag fp, monitor code neq_float; "
+        "failures are counted in oracle_hypothesis_failures and reported unless listed as a known finding)",
         "NaN and infinities are excluded by the statement ('finite numbers') and never generated; a case that contains one is "
         "counted under nonfinite_skipped",
         "de is defined on canonical number atoms only (an f64 field given as an integer literal is accepted by serde_json "
